@@ -30,6 +30,23 @@ class RaisesOnGetstate:
         raise RuntimeError("state not available")
 
 
+def _raiser(exc_type):
+    class _R:
+        """Cannot be persisted: __getstate__ raises an exception of a class that control flow elsewhere may swallow
+        (StopIteration ends a map()/next() loop, KeyError / AttributeError / TypeError are caught by duck-typing code)."""
+
+        def __getstate__(self):
+            raise exc_type("state not available")
+    _R.__name__ = _R.__qualname__ = "RaisesOnGetstate_" + exc_type.__name__
+    return _R
+
+
+RaisesOnGetstate_StopIteration = _raiser(StopIteration)
+RaisesOnGetstate_KeyError = _raiser(KeyError)
+RaisesOnGetstate_AttributeError = _raiser(AttributeError)
+RaisesOnGetstate_TypeError = _raiser(TypeError)
+
+
 class RaisesOnReduce:
     def __reduce__(self):
         raise RuntimeError("reduce not available")
